@@ -36,6 +36,12 @@
 #include <string.h>
 #include <pthread.h>
 
+#ifdef LIBERASURECODE_VERIF
+#include "erasurecode_verif.h"
+#else
+#define LEC_VERIF_YIELD(point) do { } while (0)
+#endif
+
 // We are only implementing w=16 here.  If you want to use something
 // else, then use Jerasure with GF-Complete or ISA-L.
 #define PRIM_POLY 0x1100b
@@ -50,18 +56,23 @@ static pthread_mutex_t init_lock = PTHREAD_MUTEX_INITIALIZER;
 
 void rs_galois_init_tables(void)
 {
+  LEC_VERIF_YIELD(LEC_VP_GF_INIT_ENTRY);
   pthread_mutex_lock(&init_lock);
   if (init_counter++ > 0) {
     /* already initialized */
     pthread_mutex_unlock(&init_lock);
     return;
   }
+  LEC_VERIF_YIELD(LEC_VP_GF_INIT_COUNTED);
   log_table = (int*)malloc(sizeof(int)*FIELD_SIZE);
   ilog_table_begin = (int*)malloc(sizeof(int)*FIELD_SIZE*3);
   int i = 0;
   int x = 1;
 
   for (i = 0; i < GROUP_SIZE; i++) {
+    if (i == GROUP_SIZE / 2) {
+      LEC_VERIF_YIELD(LEC_VP_GF_INIT_MID_FILL);
+    }
     log_table[x] = i;
     ilog_table_begin[i] = x;
     ilog_table_begin[i + GROUP_SIZE] = x;
@@ -72,19 +83,23 @@ void rs_galois_init_tables(void)
     }
   }
   ilog_table = &ilog_table_begin[GROUP_SIZE];
+  LEC_VERIF_YIELD(LEC_VP_GF_INIT_FILLED);
   pthread_mutex_unlock(&init_lock);
 }
 
 void rs_galois_deinit_tables(void)
 {
+  LEC_VERIF_YIELD(LEC_VP_GF_DEINIT_ENTRY);
   pthread_mutex_lock(&init_lock);
   init_counter--;
+  LEC_VERIF_YIELD(LEC_VP_GF_DEINIT_COUNTED);
   if (init_counter < 0) {
     /* deinit when not initialized?? */
     init_counter = 0;
   } else if (init_counter > 0) {
     /* still at least one desc using it */
   } else {
+    LEC_VERIF_YIELD(LEC_VP_GF_DEINIT_BEFORE_FREE);
     free(log_table);
     log_table = NULL;
     free(ilog_table_begin);
